@@ -731,128 +731,184 @@ Section Meta.
       eapply nodup_app_disjoint; [exact ND|]. rewrite <- I1. now apply in_map.
   Qed.
 
-  (** ** set_url: name and enabled flag *)
+  (** ** set_url: name, URL and enabled flag *)
 
-  Lemma set_entry_id f name en o fs : f_id (snd (fst (set_entry f name en o fs))) = f_id f.
+  Lemma set_target_id f name nurl en : f_id (set_target f name nurl en) = f_id f.
+  Proof. unfold set_target. now destruct (negb _). Qed.
+
+  Lemma set_target_enabled f name nurl en : f_enabled (set_target f name nurl en) = en.
+  Proof. unfold set_target. now destruct (negb _). Qed.
+
+  Lemma set_entry_id f name nurl dup en o fs : f_id (snd (fst (set_entry f name nurl dup en o fs))) = f_id f.
   Proof.
-    unfold Refresh.set_entry. destruct en; [|now destruct (negb _)].
-    destruct (negb _); [|reflexivity].
-    pose proof (update_one_id crc {| f_id := f_id f; f_enabled := true; f_name := name; f_count := f_count f; f_sum := f_sum f |} o fs) as I.
+    unfold Refresh.set_entry. destruct (_ && dup); [reflexivity|].
+    destruct en; [|cbn [fst snd]; unfold unload; cbn [f_id]; apply set_target_id].
+    destruct (_ || _); [|apply set_target_id].
+    pose proof (update_one_id crc (set_target f name nurl true) o fs) as I. rewrite set_target_id in I.
     destruct (update_one _ o fs) as [u fs']. cbn [fst] in I.
     destruct (u_err u); [reflexivity|]. destruct (u_updated u); exact I.
   Qed.
 
-  Lemma set_entry_other f name en o fs j : f_id f <> j ->
-    fentry j (snd (set_entry f name en o fs)) = fentry j fs.
+  Lemma set_entry_other f name nurl dup en o fs j : f_id f <> j ->
+    fentry j (snd (set_entry f name nurl dup en o fs)) = fentry j fs.
   Proof.
-    intros Nj. unfold Refresh.set_entry. destruct en; [|now destruct (negb _)].
-    destruct (negb _); [|reflexivity].
-    pose proof (update_one_other crc {| f_id := f_id f; f_enabled := true; f_name := name; f_count := f_count f; f_sum := f_sum f |} o fs j Nj) as I.
+    intros Nj. unfold Refresh.set_entry. destruct (_ && dup); [reflexivity|].
+    destruct en; [|reflexivity].
+    destruct (_ || _); [|reflexivity].
+    assert (Nj' : f_id (set_target f name nurl true) <> j) by now rewrite set_target_id.
+    pose proof (update_one_other crc (set_target f name nurl true) o fs j Nj') as I.
     destruct (update_one _ o fs) as [u fs']. cbn [snd] in I.
     destruct (u_err u); [exact I|]. destruct (u_updated u); [exact I|]. cbn [snd].
     now rewrite fentry_fdel_ne.
   Qed.
 
-  Lemma set_entry_ok f name en o fs : list_ok fs f ->
-    let '(_, _, f', fs') := set_entry f name en o fs in list_ok fs' f'.
+  Lemma update_one_err_fails l o fs : u_err (fst (update_one l o fs)) = true -> fails crc o.
   Proof.
-    intros OK. unfold Refresh.set_entry. destruct en.
-    - destruct (f_enabled f) eqn:En; cbn [negb Bool.eqb].
-      + (* stays enabled: only the name *) unfold list_ok in *. cbn [f_enabled f_id f_count f_sum]. now rewrite En in OK.
-      + unfold list_ok in OK. rewrite En in OK. destruct OK as [C0 S0].
-        set (f1 := {| f_id := f_id f; f_enabled := true; f_name := name; f_count := f_count f; f_sum := f_sum f |}).
-        pose proof (update_one_cases crc f1 o fs) as C. destruct (update_one f1 o fs) as [u fs'].
-        destruct C as [(U & -> & L)|(d & re & st & _ & P & _ & U & E & L & -> & st' & P' & O' & C' & S')].
-        * rewrite U, L. destruct (u_err u).
-          -- unfold list_ok. cbn [f_enabled f_count f_sum f1]. auto.
-          -- unfold list_ok. cbn [f_enabled f_id f_count f_sum f1]. now rewrite fget_fdel_eq.
-        * rewrite U, E, L. unfold list_ok. cbn [f_enabled f_id f_count f_sum filled f1].
-          rewrite fget_fset_eq. exists st'. auto.
-    - cbv [list_ok unload f_enabled f_count f_sum]. auto.
+    unfold Refresh.update_one, fails. destruct o as [|d re|d]; auto.
+    destruct (parse crc d re) as [st [e|]]; cbn [snd]; [intros _; discriminate|].
+    destruct (p_sum st =? f_sum l); cbn; discriminate.
   Qed.
 
-  Lemma set_in_spec : forall ls i name en o fs,
+  (** The call keeps the entry in step with the files unless it is a failed
+      change of the URL of a list: that one forgets the checksum (see
+      [failed_url_change_forgets_checksum]). *)
+  Lemma set_entry_ok f name nurl dup en o fs : list_ok fs f ->
+    f_url f = nurl \/ en = false \/ ~ fails crc o ->
+    let '(_, _, f', fs') := set_entry f name nurl dup en o fs in list_ok fs' f'.
+  Proof.
+    intros OK Hc. unfold Refresh.set_entry. destruct (_ && dup); [exact OK|].
+    destruct en.
+    - destruct (negb (f_url f =? nurl) || negb (Bool.eqb (f_enabled f) true)) eqn:R.
+      + set (f1 := set_target f name nurl true).
+        assert (Z : (f_url f =? nurl) = false \/ f_enabled f = false).
+        { apply orb_true_iff in R. destruct R as [R|R]; [left; now apply negb_true_iff in R|right].
+          destruct (f_enabled f); [discriminate|reflexivity]. }
+        assert (Z0 : (f_url f =? nurl) = false \/ (f_count f = 0 /\ f_sum f = 0)).
+        { destruct Z as [Z|Z]; [now left|right]. unfold list_ok in OK. now rewrite Z in OK. }
+        assert (F0 : f_count f1 = 0 /\ f_sum f1 = 0).
+        { unfold f1, set_target. destruct Z0 as [->|Z0]; cbn [negb f_count f_sum]; [auto|].
+          destruct (negb _); cbn [f_count f_sum]; auto. }
+        pose proof (update_one_err_fails f1 o fs) as EF.
+        pose proof (update_one_cases crc f1 o fs) as C. destruct (update_one f1 o fs) as [u fs'].
+        cbn [fst] in EF.
+        destruct C as [(U & -> & L)|(d & re & st & _ & P & _ & U & E & L & -> & st' & P' & O' & C' & S')].
+        * rewrite U. destruct (u_err u) eqn:Er.
+          -- (* an error: everything but the checksum is put back *)
+             unfold restored_sum. rewrite L.
+             destruct (N.eqb_spec (f_url f) nurl) as [Eu|Nu].
+             ++ unfold f1, set_target. rewrite (proj2 (N.eqb_eq _ _) Eu). cbn [negb f_sum].
+                unfold list_ok in *. cbn [f_enabled f_id f_count f_sum]. exact OK.
+             ++ exfalso. destruct Hc as [Hc|[Hc|Hc]]; [contradiction|discriminate|]. apply Hc, EF. reflexivity.
+          -- rewrite L. unfold list_ok. unfold f1 at 1. rewrite set_target_enabled.
+             unfold f1 at 1. rewrite set_target_id, fget_fdel_eq. exact F0.
+        * rewrite U, E, L. unfold list_ok. cbn [f_enabled f_id f_count f_sum filled].
+          unfold f1. rewrite set_target_enabled, set_target_id, fget_fset_eq. exists st'. auto.
+      + (* neither the URL nor the flag changes: only the name *)
+        apply orb_false_iff in R. destruct R as [R1 R2]. apply negb_false_iff in R1, R2.
+        unfold set_target. rewrite R1. cbn [negb]. unfold list_ok in *. cbn [f_enabled f_id f_count f_sum].
+        destruct (f_enabled f); [exact OK|discriminate].
+    - unfold list_ok, unload. cbn [f_enabled f_count f_sum]. rewrite set_target_enabled. auto.
+  Qed.
+
+  Lemma set_in_spec : forall ls url name nurl dup en o fs,
     NoDup (map f_id ls) -> Forall (list_ok fs) ls ->
-    match set_in ls i name en o fs with
+    url = nurl \/ en = false \/ ~ fails crc o ->
+    match set_in ls url name nurl dup en o fs with
     | None => True
     | Some (_, _, ls', fs') =>
         map f_id ls' = map f_id ls /\ Forall (list_ok fs') ls' /\
-        (forall j, j <> i -> fentry j fs' = fentry j fs)
+        (forall j, ~ In j (map f_id ls) -> fentry j fs' = fentry j fs)
     end.
   Proof.
-    induction ls as [|f ls IH]; intros i name en o fs ND OK; cbn [Refresh.set_in]; auto.
+    induction ls as [|f ls IH]; intros url name nurl dup en o fs ND OK Hc; cbn [Refresh.set_in]; auto.
     inversion ND as [|? ? Hn ND']; subst. inversion OK as [|? ? OKf OKr]; subst.
-    destruct (N.eqb_spec (f_id f) i) as [E|E].
-    - pose proof (set_entry_ok f name en o fs OKf) as S.
-      pose proof (set_entry_id f name en o fs) as I.
-      pose proof (set_entry_other f name en o fs) as X.
-      destruct (set_entry f name en o fs) as [[[rs er] f'] fs']. cbn [fst snd] in *.
+    destruct (N.eqb_spec (f_url f) url) as [E|E].
+    - assert (Hc' : f_url f = nurl \/ en = false \/ ~ fails crc o) by (rewrite E; exact Hc).
+      pose proof (set_entry_ok f name nurl dup en o fs OKf Hc') as S.
+      pose proof (set_entry_id f name nurl dup en o fs) as I.
+      pose proof (set_entry_other f name nurl dup en o fs) as X.
+      destruct (set_entry f name nurl dup en o fs) as [[[rs er] f'] fs']. cbn [fst snd] in *.
       split; [cbn; now rewrite I|]. split.
       + constructor; auto. eapply forall_ok_transfer; [|exact OKr]. intros l Hl. apply X.
         intros E2. apply Hn. rewrite E2. now apply in_map.
-      + intros j Hj. apply X. congruence.
-    - specialize (IH i name en o fs ND' OKr). destruct (set_in ls i name en o fs) as [[[[rs er] ls'] fs']|]; auto.
-      destruct IH as (I & O & X). split; [cbn; now rewrite I|]. split; auto.
-      constructor; auto. eapply list_ok_fentry; [|exact OKf]. now apply X.
+      + intros j Hj. apply X. intros E2. apply Hj. left. exact E2.
+    - specialize (IH url name nurl dup en o fs ND' OKr Hc).
+      destruct (set_in ls url name nurl dup en o fs) as [[[[rs er] ls'] fs']|]; auto.
+      destruct IH as (I & O & X). split; [cbn; now rewrite I|]. split.
+      + constructor; auto. eapply list_ok_fentry; [|exact OKf]. now apply X.
+      + intros j Hj. apply X. intros Hin. apply Hj. now right.
   Qed.
 
-  Lemma set_in_ids_absent : forall ls i name en o fs, ~ In i (map f_id ls) -> set_in ls i name en o fs = None.
+  Lemma set_in_urls_absent : forall ls url name nurl dup en o fs,
+    ~ In url (map f_url ls) -> set_in ls url name nurl dup en o fs = None.
   Proof.
-    induction ls as [|f ls IH]; intros i name en o fs H; cbn [Refresh.set_in]; auto.
-    destruct (N.eqb_spec (f_id f) i) as [E|E]; [exfalso; apply H; now left|].
+    induction ls as [|f ls IH]; intros url name nurl dup en o fs H; cbn [Refresh.set_in]; auto.
+    destruct (N.eqb_spec (f_url f) url) as [E|E]; [exfalso; apply H; now left|].
     rewrite IH; auto. intros Hin. apply H. now right.
   Qed.
 
-  Theorem set_props_wf allow i name en o st : wf st -> wf (snd (set_props allow i name en o st)).
+  (** A set_url call that is not a failing change of a list's URL. *)
+  Definition set_keeps_checksum (url nurl : N) (en : bool) (o : outcome) : Prop :=
+    url = nurl \/ en = false \/ ~ fails crc o.
+
+  Theorem set_props_wf allow url name nurl en o st :
+    wf st -> set_keeps_checksum url nurl en o -> wf (snd (set_props allow url name nurl en o st)).
   Proof.
-    intros [ND OK]. rewrite map_app in ND. apply Forall_app in OK. destruct OK as [OKb OKa].
+    intros [ND OK] Hc. rewrite map_app in ND. apply Forall_app in OK. destruct OK as [OKb OKa].
     pose proof (nodup_app_l _ _ ND) as NDb. pose proof (nodup_app_r _ _ ND) as NDa.
     unfold Refresh.set_props. destruct allow.
-    - pose proof (set_in_spec (r_allow st) i name en o (r_files st) NDa OKa) as S.
-      destruct (In_dec N.eq_dec i (map f_id (r_allow st))) as [Hin|Hout].
-      + destruct (set_in _ i name en o _) as [[[[rs er] ls'] fs']|]; [|split; [now rewrite map_app|now apply Forall_app]].
-        destruct S as (I & O & X). unfold wf. cbn [snd r_block r_allow r_files]. split.
-        * now rewrite map_app, I.
-        * apply Forall_app. split; auto. eapply forall_ok_transfer; [|exact OKb]. intros l Hl. apply X.
-          intros E. apply (nodup_app_disjoint _ _ (f_id l) ND); [now apply in_map|now rewrite E].
-      + rewrite set_in_ids_absent by exact Hout. split; [now rewrite map_app|now apply Forall_app].
-    - pose proof (set_in_spec (r_block st) i name en o (r_files st) NDb OKb) as S.
-      destruct (In_dec N.eq_dec i (map f_id (r_block st))) as [Hin|Hout].
-      + destruct (set_in _ i name en o _) as [[[[rs er] ls'] fs']|]; [|split; [now rewrite map_app|now apply Forall_app]].
-        destruct S as (I & O & X). unfold wf. cbn [snd r_block r_allow r_files]. split.
-        * now rewrite map_app, I.
-        * apply Forall_app. split; auto. eapply forall_ok_transfer; [|exact OKa]. intros l Hl. apply X.
-          intros E. apply (nodup_app_disjoint_r _ _ (f_id l) ND); [now apply in_map|now rewrite E].
-      + rewrite set_in_ids_absent by exact Hout. split; [now rewrite map_app|now apply Forall_app].
+    - pose proof (set_in_spec (r_allow st) url name nurl (url_used nurl st) en o (r_files st) NDa OKa Hc) as S.
+      destruct (set_in _ url name nurl _ en o _) as [[[[rs er] ls'] fs']|]; [|split; [now rewrite map_app|now apply Forall_app]].
+      destruct S as (I & O & X). unfold wf. cbn [snd r_block r_allow r_files]. split.
+      + now rewrite map_app, I.
+      + apply Forall_app. split; auto. eapply forall_ok_transfer; [|exact OKb]. intros l Hl. apply X.
+        apply (nodup_app_disjoint _ _ (f_id l) ND). now apply in_map.
+    - pose proof (set_in_spec (r_block st) url name nurl (url_used nurl st) en o (r_files st) NDb OKb Hc) as S.
+      destruct (set_in _ url name nurl _ en o _) as [[[[rs er] ls'] fs']|]; [|split; [now rewrite map_app|now apply Forall_app]].
+      destruct S as (I & O & X). unfold wf. cbn [snd r_block r_allow r_files]. split.
+      + now rewrite map_app, I.
+      + apply Forall_app. split; auto. eapply forall_ok_transfer; [|exact OKa]. intros l Hl. apply X.
+        apply (nodup_app_disjoint_r _ _ (f_id l) ND). now apply in_map.
   Qed.
 
-  (** ** Histories of refreshes and set_url calls *)
+  Lemma rebuild_now_wf st : wf st -> wf (rebuild_now st).
+  Proof. intros W. exact W. Qed.
+
+  (** ** Histories of refreshes, set_url calls and engine rebuilds *)
   Inductive hop :=
     | HRefresh (block allow force : bool) (due : N -> bool) (oc : N -> outcome)
-    | HSet (allow : bool) (i : N) (name : bytes) (enabled : bool) (o : outcome).
+    | HSet (allow : bool) (url : N) (name : bytes) (nurl : N) (enabled : bool) (o : outcome)
+    | HRebuild.
 
   Definition run_hop (st : rstate) (h : hop) : rstate :=
     match h with
     | HRefresh b a f due oc => refresh b a f due oc st
-    | HSet a i name en o => snd (set_props a i name en o st)
+    | HSet a u name nu en o => snd (set_props a u name nu en o st)
+    | HRebuild => rebuild_now st
     end.
 
   Definition run_hist (hs : list hop) (st : rstate) : rstate := fold_left run_hop hs st.
 
-  Theorem history_wf hs : forall st, wf st -> wf (run_hist hs st).
+  (** No call of the history is a failing change of a list's URL. *)
+  Definition hop_keeps_checksum (h : hop) : Prop :=
+    match h with HSet _ u _ nu en o => set_keeps_checksum u nu en o | _ => True end.
+
+  Theorem history_wf hs : forall st, wf st -> Forall hop_keeps_checksum hs -> wf (run_hist hs st).
   Proof.
-    unfold run_hist. induction hs as [|h hs IH]; intros st W; cbn [fold_left]; auto.
-    apply IH. destruct h; cbn [run_hop]; [now apply refresh_wf|now apply set_props_wf].
+    unfold run_hist. induction hs as [|h hs IH]; intros st W HK; cbn [fold_left]; auto.
+    inversion HK as [|? ? Hh HK']; subst.
+    apply IH; auto. destruct h; cbn [run_hop]; [now apply refresh_wf|now apply set_props_wf|exact W].
   Qed.
 
-  (** After any history: the rule count and checksum of every enabled list
-      are those of a re-parse of its stored file, which reproduces the file. *)
+  (** After any such history: the rule count and checksum of every enabled
+      list are those of a re-parse of its stored file, which reproduces the
+      file. *)
   Corollary history_meta_matches_file hs st l c :
-    wf st -> let st' := run_hist hs st in
+    wf st -> Forall hop_keeps_checksum hs -> let st' := run_hist hs st in
     In l (r_block st' ++ r_allow st') -> f_enabled l = true -> fget (f_id l) (r_files st') = Some c ->
     describes (f_count l) (f_sum l) c.
   Proof.
-    intros W st' Hin En G. destruct (history_wf hs st W) as [_ OK].
+    intros W HK st' Hin En G. destruct (history_wf hs st W HK) as [_ OK].
     pose proof (proj1 (Forall_forall _ _) OK l Hin) as H. unfold list_ok in H. fold st' in H.
     now rewrite En, G in H.
   Qed.
@@ -885,21 +941,23 @@ Section Meta.
     apply in_app_iff in Hin. apply in_app_iff. destruct Hin as [H|H]; apply In_nth_error in H; destruct H as [k H];
       [left; eapply nth_error_In; apply (Bk k l H eq_refl)|right; eapply nth_error_In; apply (Al k l H eq_refl)].
   Qed.
-  (** ** Disabling takes a list's rules out of force, enabling puts them back *)
+  (** ** Disabling takes a list's rules out of force, enabling or re-pointing
+      puts the delivered rules in force *)
 
   Definition arr (allow : bool) (st : rstate) : list flist := if allow then r_allow st else r_block st.
   Definition eng_arr (allow : bool) (e : engine) : list (N * bytes) := if allow then e_allow e else e_block e.
   Definition other_id (i : N) (x : flist) : Prop := (f_id x =? i) = false.
+  Definition other_url (u : N) (x : flist) : Prop := (f_url x =? u) = false.
 
-  Lemma set_in_split post f i name en o fs : forall pre,
-    Forall (other_id i) pre -> f_id f = i ->
-    set_in (pre ++ f :: post) i name en o fs =
-    let '(rs, er, f', fs') := set_entry f name en o fs in Some (rs, er, pre ++ f' :: post, fs').
+  Lemma set_in_split post f u name nurl dup en o fs : forall pre,
+    Forall (other_url u) pre -> f_url f = u ->
+    set_in (pre ++ f :: post) u name nurl dup en o fs =
+    let '(rs, er, f', fs') := set_entry f name nurl dup en o fs in Some (rs, er, pre ++ f' :: post, fs').
   Proof.
     induction pre as [|x pre IH]; intros Hp Hi; cbn [app Refresh.set_in].
     - rewrite Hi, N.eqb_refl. reflexivity.
-    - inversion Hp as [|? ? Hx Hp']; subst. unfold other_id in Hx. rewrite Hx. rewrite IH by auto.
-      destruct (set_entry f name en o fs) as [[[rs er] f'] fs']. reflexivity.
+    - inversion Hp as [|? ? Hx Hp']; subst. unfold other_url in Hx. rewrite Hx. rewrite IH by auto.
+      destruct (set_entry f name nurl dup en o fs) as [[[rs er] f'] fs']. reflexivity.
   Qed.
 
   Lemma existsb_split_on pre f' post i : f_id f' = i -> f_enabled f' = true ->
@@ -921,68 +979,174 @@ Section Meta.
     now rewrite !existsb_others.
   Qed.
 
-  (** Enabling a disabled (hence unloaded) list whose source delivers a
-      list text: no error, the engine is rebuilt from the files, and what is in
-      force for the list is the normal form of that text (nothing when it has
-      no rules: the checksum of an unloaded list). *)
-  Theorem enable_puts_rules_in_force allow i name d re pst st pre f post :
-    arr allow st = pre ++ f :: post -> Forall (other_id i) pre -> f_id f = i ->
+  (** The call downloads into the entry: a disabled (hence unloaded) list is
+      enabled with its URL kept, or the URL is replaced by one no list has. *)
+  Definition downloads (f : flist) (u nurl : N) (st : rstate) : Prop :=
+    (nurl = u /\ f_enabled f = false /\ f_sum f = 0) \/ (nurl <> u /\ url_used nurl st = false).
+
+  Lemma set_target_sum0 f name nurl en :
+    (f_url f =? nurl) = false \/ f_sum f = 0 -> f_sum (set_target f name nurl en) = 0.
+  Proof. unfold set_target. intros [->|H]; cbn [negb f_sum]; auto. destruct (negb _); cbn [f_sum]; auto. Qed.
+
+  Lemma downloads_entry f u nurl st : f_url f = u -> downloads f u nurl st ->
+    (negb (f_url f =? nurl) && url_used nurl st = false) /\
+    (negb (f_url f =? nurl) || negb (Bool.eqb (f_enabled f) true) = true) /\
+    forall name, f_sum (set_target f name nurl true) = 0.
+  Proof.
+    intros Hu [(-> & En & S0)|(Nu & Us)].
+    - rewrite Hu, N.eqb_refl, En. repeat split; auto. intros name. apply set_target_sum0. now right.
+    - assert (E : (f_url f =? nurl) = false) by (apply N.eqb_neq; congruence).
+      rewrite E, Us. repeat split; auto. intros name. apply set_target_sum0. now left.
+  Qed.
+
+  (** Enabling a disabled (hence unloaded) list, or pointing a list to a URL
+      that no list has, the source delivering a list text: no error, the entry
+      has the URL of the request, the engine is rebuilt from the files, and what
+      is in force for the list is the normal form of that text (nothing when it
+      has no rules: the checksum of an unloaded list; no file is left then). *)
+  Theorem download_puts_rules_in_force allow u i name nurl d re pst st pre f post :
+    arr allow st = pre ++ f :: post -> Forall (other_url u) pre -> f_url f = u -> f_id f = i ->
+    downloads f u nurl st ->
+    parse crc d re = (pst, None) ->
+    let '(rs, er, st') := set_props allow u name nurl true (OBody d re) st in
+    er = false /\ rs = true /\ engine_consistent st' /\
+    lookup i (eng_arr allow (r_engine st')) = (if p_sum pst =? 0 then None else Some (output pst)) /\
+    fget i (r_files st') = (if p_sum pst =? 0 then None else Some (output pst)) /\
+    exists f', arr allow st' = pre ++ f' :: post /\ f_id f' = i /\ f_url f' = nurl /\ f_enabled f' = true /\
+               f_sum f' = p_sum pst /\ ((p_sum pst =? 0) = false -> f_count f' = p_count pst).
+  Proof.
+    intros Ha Hp Hu Hi Hd P. destruct (downloads_entry f u nurl st Hu Hd) as (D1 & D2 & D3).
+    unfold Refresh.set_props. fold (arr allow st). rewrite Ha.
+    rewrite set_in_split by auto. unfold Refresh.set_entry. rewrite D1, D2.
+    unfold Refresh.update_one. rewrite P, (D3 name).
+    pose proof (set_target_id f name nurl true) as TI. pose proof (set_target_enabled f name nurl true) as TE.
+    assert (TU : f_url (set_target f name nurl true) = nurl) by (unfold set_target; now destruct (negb _)).
+    destruct (p_sum pst =? 0) eqn:Z; cbn [u_err u_updated u_list negb andb];
+      (split; [reflexivity|]; split; [reflexivity|]; split; [destruct allow; reflexivity|]).
+    - split; [|split].
+      + destruct allow; cbn [eng_arr r_engine r_files rebuild e_allow e_block];
+          rewrite lookup_snapshot, existsb_split_on by congruence; rewrite Hi, fget_fdel_eq; auto.
+      + cbn [r_files]. now rewrite Hi, fget_fdel_eq.
+      + exists (set_target f name nurl true). apply N.eqb_eq in Z.
+        split; [destruct allow; reflexivity|]. split; [congruence|]. split; [exact TU|]. split; [exact TE|].
+        split; [rewrite (D3 name); congruence|discriminate].
+    - split; [|split].
+      + destruct allow; cbn [eng_arr r_engine r_files rebuild e_allow e_block];
+          rewrite lookup_snapshot, existsb_split_on by (cbn [filled f_id f_enabled]; congruence);
+          rewrite TI, Hi, fget_fset_eq; auto.
+      + cbn [r_files]. now rewrite TI, Hi, fget_fset_eq.
+      + exists (filled (set_target f name nurl true) pst). cbn [filled f_id f_url f_enabled f_sum f_count].
+        split; [destruct allow; reflexivity|]. split; [congruence|]. split; [exact TU|]. split; [exact TE|].
+        split; reflexivity.
+  Qed.
+
+  (** The instance with the URL kept. *)
+  Corollary enable_puts_rules_in_force allow u i name d re pst st pre f post :
+    arr allow st = pre ++ f :: post -> Forall (other_url u) pre -> f_url f = u -> f_id f = i ->
     f_enabled f = false -> f_sum f = 0 ->
     parse crc d re = (pst, None) ->
-    let '(rs, er, st') := set_props allow i name true (OBody d re) st in
+    let '(rs, er, st') := set_props allow u name u true (OBody d re) st in
     er = false /\ rs = true /\ engine_consistent st' /\
     lookup i (eng_arr allow (r_engine st')) = (if p_sum pst =? 0 then None else Some (output pst)) /\
     fget i (r_files st') = (if p_sum pst =? 0 then None else Some (output pst)).
   Proof.
-    intros Ha Hp Hi En S0 P. unfold Refresh.set_props. fold (arr allow st). rewrite Ha.
-    rewrite set_in_split by auto. unfold Refresh.set_entry. rewrite En. cbn [Bool.eqb negb].
-    unfold Refresh.update_one. rewrite P. cbn [f_sum]. rewrite S0.
-    destruct (p_sum pst =? 0) eqn:Z; cbn [u_err u_updated u_list negb andb];
-      (split; [reflexivity|]; split; [reflexivity|]; split; [destruct allow; reflexivity|]).
-    - destruct allow; cbn [eng_arr r_engine r_files rebuild e_allow e_block];
-        rewrite lookup_snapshot, existsb_split_on by auto; rewrite Hi, fget_fdel_eq; auto.
-    - destruct allow; cbn [eng_arr r_engine r_files rebuild e_allow e_block];
-        rewrite lookup_snapshot, existsb_split_on by auto; cbn [f_id]; rewrite Hi, fget_fset_eq; auto.
+    intros Ha Hp Hu Hi En S0 P.
+    pose proof (download_puts_rules_in_force allow u i name u d re pst st pre f post Ha Hp Hu Hi
+                  (or_introl (conj eq_refl (conj En S0))) P) as H.
+    destruct (set_props allow u name u true (OBody d re) st) as [[rs er] st']. tauto.
   Qed.
 
-  (** Disabling an enabled list: the engine is rebuilt without it, its file
-      stays, its entry is unloaded. *)
-  Theorem disable_takes_rules_out allow i name o st pre f post :
-    arr allow st = pre ++ f :: post -> Forall (other_id i) pre -> Forall (other_id i) post -> f_id f = i ->
-    f_enabled f = true ->
-    let '(rs, er, st') := set_props allow i name false o st in
+  (** Disabling an enabled list (its URL kept or replaced by one no list
+      has): the engine is rebuilt without it, its file stays, its entry is
+      unloaded. *)
+  Theorem disable_takes_rules_out allow u i name nurl o st pre f post :
+    arr allow st = pre ++ f :: post -> Forall (other_url u) pre ->
+    Forall (other_id i) pre -> Forall (other_id i) post -> f_url f = u -> f_id f = i ->
+    f_enabled f = true -> nurl = u \/ url_used nurl st = false ->
+    let '(rs, er, st') := set_props allow u name nurl false o st in
     er = false /\ rs = true /\ engine_consistent st' /\
     lookup i (eng_arr allow (r_engine st')) = None /\ r_files st' = r_files st /\
-    arr allow st' = pre ++ {| f_id := i; f_enabled := false; f_name := name; f_count := 0; f_sum := 0 |} :: post.
+    arr allow st' = pre ++ {| f_id := i; f_url := nurl; f_enabled := false; f_name := name; f_count := 0; f_sum := 0 |} :: post.
   Proof.
-    intros Ha Hp Hq Hi En. unfold Refresh.set_props. fold (arr allow st). rewrite Ha.
-    rewrite set_in_split by auto. unfold Refresh.set_entry. rewrite En. cbn [Bool.eqb negb andb unload f_id f_enabled f_name].
+    intros Ha Hp Hpi Hq Hu Hi En Hn. unfold Refresh.set_props. fold (arr allow st). rewrite Ha.
+    rewrite set_in_split by auto. unfold Refresh.set_entry.
+    assert (D1 : negb (f_url f =? nurl) && url_used nurl st = false).
+    { destruct Hn as [->| ->]; [rewrite Hu, N.eqb_refl; reflexivity|apply andb_false_r]. }
+    rewrite D1, En. cbn [Bool.eqb negb]. rewrite orb_true_r.
+    assert (TU : unload (set_target f name nurl false)
+                 = {| f_id := i; f_url := nurl; f_enabled := false; f_name := name; f_count := 0; f_sum := 0 |}).
+    { unfold unload, set_target. destruct (negb _); cbn [f_id f_url f_enabled f_name]; now rewrite Hi. }
+    rewrite TU. cbn [negb andb].
     split; [reflexivity|]. split; [reflexivity|]. split; [destruct allow; reflexivity|].
-    split; [|split; [reflexivity|destruct allow; cbn [arr r_allow r_block]; now rewrite Hi]].
+    split; [|split; [reflexivity|destruct allow; reflexivity]].
     destruct allow; cbn [eng_arr r_engine r_files rebuild e_allow e_block];
       rewrite lookup_snapshot, existsb_split_off; auto.
   Qed.
 
+  Lemma flist_eta f : {| f_id := f_id f; f_url := f_url f; f_enabled := f_enabled f; f_name := f_name f;
+                         f_count := f_count f; f_sum := f_sum f |} = f.
+  Proof. now destruct f. Qed.
+
+  Lemma rstate_arr_same (allow : bool) (st : rstate) :
+    {| r_block := (if allow then r_block st else arr allow st); r_allow := (if allow then arr allow st else r_allow st);
+       r_files := r_files st; r_engine := r_engine st |} = st.
+  Proof. destruct st, allow; reflexivity. Qed.
+
   (** Enabling with a failing source (any of the failures, at any byte of
       the body): an error is reported and nothing changes. *)
-  Theorem failed_enable_is_noop allow i name o st pre f post :
-    arr allow st = pre ++ f :: post -> Forall (other_id i) pre -> f_id f = i ->
+  Theorem failed_enable_is_noop allow u name o st pre f post :
+    arr allow st = pre ++ f :: post -> Forall (other_url u) pre -> f_url f = u ->
     f_enabled f = false -> fails crc o ->
-    set_props allow i name true o st = (false, true, st).
+    set_props allow u name u true o st = (false, true, st).
   Proof.
-    intros Ha Hp Hi En F. unfold Refresh.set_props. fold (arr allow st). rewrite Ha.
-    rewrite set_in_split by auto. unfold Refresh.set_entry. rewrite En. cbn [Bool.eqb negb].
-    rewrite update_one_failed by exact F. cbn [failed_upd u_err u_updated u_list f_sum negb andb].
-    replace {| f_id := f_id f; f_enabled := false; f_name := f_name f; f_count := f_count f; f_sum := f_sum f |}
-      with f by (destruct f; cbn in *; now subst).
-    rewrite <- Ha. destruct st as [bl al fs e]. destruct allow; reflexivity.
+    intros Ha Hp Hu En F. unfold Refresh.set_props. fold (arr allow st). rewrite Ha.
+    rewrite set_in_split by auto. unfold Refresh.set_entry. rewrite Hu, N.eqb_refl, En. cbn [Bool.eqb negb andb orb].
+    rewrite update_one_failed by exact F. cbn [failed_upd u_err u_updated u_list negb andb].
+    unfold restored_sum. cbn [u_list failed_upd]. unfold set_target. rewrite Hu, N.eqb_refl. cbn [negb f_sum].
+    rewrite <- Hu, <- En, flist_eta, <- Ha. rewrite rstate_arr_same. reflexivity.
   Qed.
 
-  (** A call for a list that is not there is refused and changes nothing. *)
-  Theorem set_unknown_is_noop allow i name en o st :
-    ~ In i (map f_id (arr allow st)) -> set_props allow i name en o st = (false, true, st).
+  (** A call that would give a list the URL another list (of either array)
+      has is refused and changes nothing. *)
+  Theorem duplicate_url_is_noop allow u name nurl en o st pre f post :
+    arr allow st = pre ++ f :: post -> Forall (other_url u) pre -> f_url f = u ->
+    nurl <> u -> url_used nurl st = true ->
+    set_props allow u name nurl en o st = (false, true, st).
   Proof.
-    intros H. unfold Refresh.set_props. fold (arr allow st). now rewrite set_in_ids_absent.
+    intros Ha Hp Hu Nu Us. unfold Refresh.set_props. fold (arr allow st). rewrite Ha.
+    rewrite set_in_split by auto. unfold Refresh.set_entry. rewrite Us, Hu.
+    replace (u =? nurl) with false by (symmetry; apply N.eqb_neq; congruence). cbn [negb andb].
+    rewrite <- Ha, rstate_arr_same. reflexivity.
+  Qed.
+
+  (** A failed change of the URL of a list, exactly: an error is reported;
+      files, engine, every other entry and this entry's URL, name, enabled flag
+      and rule count are as before, but its checksum is zero ([unload] forgot
+      it and the restoring code does not put it back). *)
+  Theorem failed_url_change_forgets_checksum allow u name nurl o st pre f post :
+    arr allow st = pre ++ f :: post -> Forall (other_url u) pre -> f_url f = u ->
+    nurl <> u -> url_used nurl st = false -> fails crc o ->
+    let '(rs, er, st') := set_props allow u name nurl true o st in
+    rs = false /\ er = true /\ r_files st' = r_files st /\ r_engine st' = r_engine st /\
+    arr (negb allow) st' = arr (negb allow) st /\
+    arr allow st' = pre ++ {| f_id := f_id f; f_url := u; f_enabled := f_enabled f; f_name := f_name f;
+                              f_count := f_count f; f_sum := 0 |} :: post.
+  Proof.
+    intros Ha Hp Hu Nu Us F. unfold Refresh.set_props. fold (arr allow st). rewrite Ha.
+    rewrite set_in_split by auto. unfold Refresh.set_entry. rewrite Us, Hu.
+    replace (u =? nurl) with false by (symmetry; apply N.eqb_neq; congruence). cbn [negb andb orb].
+    rewrite update_one_failed by exact F. cbn [failed_upd u_err u_updated u_list negb andb].
+    unfold restored_sum. cbn [u_list failed_upd]. unfold set_target. rewrite Hu.
+    replace (u =? nurl) with false by (symmetry; apply N.eqb_neq; congruence). cbn [negb f_sum].
+    destruct allow; cbn [arr negb r_block r_allow r_files r_engine]; repeat split; reflexivity.
+  Qed.
+
+  (** A call for a URL that no list of the array has is refused and changes
+      nothing. *)
+  Theorem set_unknown_is_noop allow u name nurl en o st :
+    ~ In u (map f_url (arr allow st)) -> set_props allow u name nurl en o st = (false, true, st).
+  Proof.
+    intros H. unfold Refresh.set_props. fold (arr allow st). now rewrite set_in_urls_absent.
   Qed.
 End Meta.
 
@@ -991,7 +1155,7 @@ Module RExamples.
   Definition good : bytes := [124;124;112;49;94;10].     (* ||p1^ *)
   Definition good2 : bytes := [124;124;112;50;94;10].    (* ||p2^ *)
   Definition html : bytes := [60;104;116;109;108;62;10]. (* <html> *)
-  Definition mk (i : N) : flist := {| f_id := i; f_enabled := true; f_name := []; f_count := 0; f_sum := 0 |}.
+  Definition mk (i : N) : flist := {| f_id := i; f_url := i; f_enabled := true; f_name := []; f_count := 0; f_sum := 0 |}.
   Definition st0 : rstate :=
     {| r_block := [mk 1]; r_allow := [mk 11]; r_files := []; r_engine := {| e_block := []; e_allow := [] |} |}.
   Definition all (_ : N) := true.
@@ -1047,8 +1211,11 @@ Qed.
     it with a failing source changes nothing. *)
 Module SetExamples.
   Import RExamples.
-  Definition st_off := snd (set_props crc32_update false 1 [120] false OOpenErr st1).
-  Definition st_on := snd (set_props crc32_update false 1 [120] true (OBody good false) st_off).
+  Definition st_off := snd (set_props crc32_update false 1 [120] 1 false OOpenErr st1).
+  Definition st_on := snd (set_props crc32_update false 1 [120] 1 true (OBody good false) st_off).
+  (* the block list is pointed to source 101, which delivers p2; then (failing) to source 102 *)
+  Definition st_moved := snd (set_props crc32_update false 1 [120] 101 true (OBody good2 false) st1).
+  Definition st_failed := snd (set_props crc32_update false 101 [120] 102 true (OBody html false) st_moved).
 End SetExamples.
 
 Example wf_example : wf crc32_update RExamples.st0 /\ wf crc32_update RExamples.st1.
@@ -1070,6 +1237,71 @@ Example set_example :
   fentry 1 (r_files SetExamples.st_off) = Some (1, RExamples.good) /\
   lookup 1 (e_block (r_engine SetExamples.st_on)) = Some RExamples.good /\
   fentry 1 (r_files SetExamples.st_on) = Some (2, RExamples.good) /\
-  set_props crc32_update false 1 [120] true (OBody RExamples.html false) SetExamples.st_off
+  set_props crc32_update false 1 [120] 1 true (OBody RExamples.html false) SetExamples.st_off
     = (false, true, SetExamples.st_off).
 Proof. vm_compute. repeat split; congruence. Qed.
+
+(** Pointing the block list to another source puts that source's rules in
+    force and stores them; a failing change of the URL afterwards reports an
+    error and leaves file, engine, URL, name and rule count alone, but the
+    checksum of the entry is zero: the state is no longer well formed. *)
+Example url_change_example :
+  map f_url (r_block SetExamples.st_moved) = [101] /\
+  fentry 1 (r_files SetExamples.st_moved) = Some (2, RExamples.good2) /\
+  lookup 1 (e_block (r_engine SetExamples.st_moved)) = Some RExamples.good2 /\
+  url_used 102 SetExamples.st_moved = false /\ url_used 11 SetExamples.st_moved = true /\
+  set_props crc32_update false 101 [120] 11 true (OBody RExamples.good false) SetExamples.st_moved
+    = (false, true, SetExamples.st_moved) /\
+  set_props crc32_update false 101 [120] 102 true (OBody RExamples.html false) SetExamples.st_moved
+    = (false, true, SetExamples.st_failed) /\
+  r_files SetExamples.st_failed = r_files SetExamples.st_moved /\
+  r_engine SetExamples.st_failed = r_engine SetExamples.st_moved /\
+  map f_url (r_block SetExamples.st_failed) = [101] /\
+  map f_count (r_block SetExamples.st_failed) = [1] /\
+  map f_sum (r_block SetExamples.st_moved) <> [0] /\
+  map f_sum (r_block SetExamples.st_failed) = [0].
+Proof. vm_compute. repeat split; congruence. Qed.
+
+Example url_change_wf : wf crc32_update SetExamples.st_moved.
+Proof.
+  apply set_props_wf; [exact (proj2 wf_example)|]. right. right. vm_compute. intros H. now apply H.
+Qed.
+
+(** The intended clause: a set_url call that reports an error leaves the
+    whole state as it was. *)
+Definition failed_set_is_noop_statement (crc : N -> bytes -> N) : Prop :=
+  forall allow u name nurl en o st rs st',
+    wf crc st -> set_props crc allow u name nurl en o st = (rs, true, st') -> st' = st.
+
+Theorem failed_set_is_noop_refuted : ~ failed_set_is_noop_statement crc32_update.
+Proof.
+  intros H.
+  destruct url_change_example as (_ & _ & _ & _ & _ & _ & E & _ & _ & _ & _ & A & B).
+  specialize (H false 101 [120] 102 true (OBody RExamples.html false) SetExamples.st_moved false SetExamples.st_failed
+                url_change_wf E).
+  apply A. rewrite <- H. exact B.
+Qed.
+
+(** ... and the metadata do not stay in step with the files over histories
+    that contain a failing change of a URL. *)
+Definition metadata_in_step_statement (crc : N -> bytes -> N) : Prop :=
+  forall hs st, wf crc st -> wf crc (run_hist crc hs st).
+
+Lemma st_failed_facts :
+  r_block SetExamples.st_failed ++ r_allow SetExamples.st_failed
+  = [{| f_id := 1; f_url := 101; f_enabled := true; f_name := [120]; f_count := 1; f_sum := 0 |};
+     {| f_id := 11; f_url := 11; f_enabled := true; f_name := [76; 105; 115; 116; 32; 49; 49]; f_count := 1;
+        f_sum := f_sum (hd (RExamples.mk 0) (r_allow SetExamples.st_failed)) |}] /\
+  fget 1 (r_files SetExamples.st_failed) = Some RExamples.good2 /\
+  p_sum (fst (parse crc32_update RExamples.good2 false)) <> 0.
+Proof. vm_compute. repeat split; congruence. Qed.
+
+Theorem metadata_in_step_refuted : ~ metadata_in_step_statement crc32_update.
+Proof.
+  intros H.
+  pose proof (H [HSet false 101 [120] 102 true (OBody RExamples.html false)] SetExamples.st_moved url_change_wf) as W.
+  change (wf crc32_update SetExamples.st_failed) in W.
+  destruct st_failed_facts as (L & G & Q). destruct W as [_ OK]. rewrite L in OK. apply Forall_inv in OK.
+  unfold list_ok in OK. cbn [f_enabled f_id f_count f_sum] in OK. rewrite G in OK.
+  destruct OK as (pst & P & _ & _ & S). rewrite P in Q. now apply Q.
+Qed.
